@@ -67,6 +67,12 @@ mod envelopes;
 #[cfg(test)]
 mod tests;
 
+/// Re-exports of private items for the external verification harness (add-only, off by default).
+#[cfg(feature = "verif_hooks")]
+pub mod verif {
+    pub use super::envelopes::ReconEncoder;
+}
+
 /// A task that manages a socket connection. Incoming envelopes are routed to the appropriate
 /// downlink or agent. Agents will be resolved externally where required.
 pub struct RemoteTask<S, E> {
